@@ -7,6 +7,7 @@ import (
 	"sort"
 	"strings"
 
+	"github.com/resonatehq/resonate/internal/kernel/t_api"
 	"github.com/resonatehq/resonate/verif/sim/faultdb"
 )
 
@@ -57,6 +58,10 @@ type Profile struct {
 	PFine float64
 	// HotP: probability that a promise operation addresses the run's hot id
 	HotP float64
+	// Collide: registrations with coinciding derived task ids
+	Collide bool
+	// PSynth: share of front-end requests whose kernel outcome is synthesised (C15 outcome matrix)
+	PSynth float64
 	// RichTags gives promises and schedules several searchable tags and searches multi-tag filters
 	RichTags bool
 	// NoQuiesce: skip the final convergence phase
@@ -83,6 +88,8 @@ type Gen struct {
 	// per-run scheduling mood: relative eagerness of clients, the clock, workers and deliveries
 	wReq, wTick int
 	nSettle     int
+	nGadget     int
+	nCollide    int
 	wWork, wDel map[string]int
 	queue       []Step
 }
@@ -139,6 +146,10 @@ func (g *Gen) Begin() {
 	g.faults = g.R.Float64() < g.P.PFaultRun
 	g.crashes = g.R.Float64() < g.P.PCrashRun
 	g.hot = pick(g.R, g.P.Promises)
+	// the collision gadget poisons a run's convergence (known finding D2): one run in five
+	if g.P.Collide && g.R.Intn(5) != 0 {
+		g.nCollide = 1
+	}
 	mood := []int{2, 8, 30, 30, 30, 90}
 	g.wReq, g.wTick = pick(g.R, mood), pick(g.R, mood)
 	g.wWork, g.wDel = map[string]int{}, map[string]int{}
@@ -415,6 +426,9 @@ func (g *Gen) instants() []int64 {
 		if t.State == 2 || t.State == 4 {
 			xs = append(xs, t.ExpiresAt, t.Timeout)
 		}
+		if t.State == 1 {
+			xs = append(xs, t.Timeout)
+		}
 	}
 	for _, l := range s.Last.Locks {
 		xs = append(xs, l.ExpiresAt)
@@ -430,6 +444,23 @@ func (g *Gen) instants() []int64 {
 	}
 	sort.Slice(out, func(i, j int) bool { return out[i] < out[j] })
 	return out
+}
+
+// alignSettle starts the first dispatch cycle of a settle step just before something stored
+// becomes due, so that the cycle's later ticks are on the other side of that instant: the
+// cycle's stages run at T, T+inner, T+2*inner, ...
+func (g *Gen) alignSettle(st *Step) {
+	s, r := g.S, g.R
+	var far []int64
+	for _, x := range g.instants() {
+		if x-1-s.Now >= s.Cfg.SignalTimeoutMs {
+			far = append(far, x)
+		}
+	}
+	if len(far) > 0 {
+		st.Dt = far[r.Intn(min(len(far), 3))] - int64(r.Intn(2)) - st.Inner*int64(r.Intn(3)) - s.Now
+		s.Probes["settle_on_boundary"]++
+	}
 }
 
 func (g *Gen) dt() int64 {
@@ -502,6 +533,13 @@ func (g *Gen) decorate(sp *ReqSpec) {
 	if r.Float64() < g.P.PFront {
 		sp.Proto = pick(r, []string{"http", "grpc"})
 	}
+	if sp.Proto != "" && g.P.PSynth > 0 && r.Float64() < g.P.PSynth {
+		st := pick(r, AllStatuses)
+		if r.Intn(2) == 0 {
+			st = pick(r, []t_api.StatusCode{t_api.StatusOK, t_api.StatusCreated, t_api.StatusNoContent})
+		}
+		sp.Synth = &Synth{Status: int(st), AsErr: st >= 50000, Shape: r.Int63()}
+	}
 }
 
 // Prologue returns the fixed opening steps of a run.
@@ -545,6 +583,11 @@ func (g *Gen) Next() Step {
 	if len(g.queue) > 0 {
 		st := g.queue[0]
 		g.queue = g.queue[1:]
+		if st.Op == "settle" && st.K == 1 {
+			// aligned when issued: the tasks it is about exist by now
+			st.K = 0
+			g.alignSettle(&st)
+		}
 		return st
 	}
 	type cand struct {
@@ -623,7 +666,10 @@ func (g *Gen) Next() Step {
 		if waiting+len(s.Last.Callbacks) > 0 {
 			cs = append(cs, cand{2, func() Step {
 				g.nSettle++
-				st := Step{Op: "settle", Rounds: 1 + r.Intn(3)}
+				st := Step{Op: "settle", Rounds: 1 + r.Intn(3), Inner: pick(r, []int64{0, 1, 1, 2, 25})}
+				if r.Float64() < g.P.PBoundary {
+					g.alignSettle(&st)
+				}
 				for i, n := 0, 1+r.Intn(4); i < n; i++ {
 					o := "ok"
 					if r.Float64() < 0.25+g.P.PHandoff {
@@ -635,6 +681,82 @@ func (g *Gen) Next() Step {
 				return st
 			}})
 		}
+	}
+	// several tasks of different kinds born inside one background period, then a dispatch cycle
+	// that starts just before one of them times out: the cycle handles a mixed batch whose
+	// members change sides of their deadline between the cycle's stages
+	if g.P.Prologue == "tasks" && g.nGadget < 2 && g.nReq+8 < g.P.MaxReqs {
+		cs = append(cs, cand{2, func() Step {
+			g.nGadget++
+			long := int64(10_000_000)
+			ids := append([]string{}, g.P.Promises...)
+			r.Shuffle(len(ids), func(i, j int) { ids[i], ids[j] = ids[j], ids[i] })
+			for i, n := 0, 2+r.Intn(3); i < n && i < len(ids); i++ {
+				id := ids[i]
+				short := pick(r, []int64{1500, 3000, 5000, 20000, long})
+				switch r.Intn(3) {
+				case 0:
+					g.queue = append(g.queue, Step{Op: "req", Req: &ReqSpec{Kind: "CreatePromise", Id: id, Data: g.val(), TimeoutRel: short, Tags: map[string]string{"resonate:invoke": pick(r, routingTags)}}})
+				case 1:
+					g.queue = append(g.queue, Step{Op: "req", Req: &ReqSpec{Kind: "CreatePromise", Id: id, Data: g.val(), TimeoutRel: long}},
+						Step{Op: "req", Req: &ReqSpec{Kind: "CreateSubscription", Id: pick(r, g.P.Subs), PromiseId: id, Recv: pick(r, recvs), TimeoutRel: short}},
+						Step{Op: "drain"},
+						Step{Op: "req", Req: &ReqSpec{Kind: "CompletePromise", Id: id, State: pick(r, []string{"RESOLVED", "REJECTED"}), Data: g.val()}})
+				default:
+					g.queue = append(g.queue, Step{Op: "req", Req: &ReqSpec{Kind: "CreatePromise", Id: id, Data: g.val(), TimeoutRel: long}},
+						Step{Op: "req", Req: &ReqSpec{Kind: "CreateCallback", Id: "cb", PromiseId: id, RootId: pick(r, g.P.Promises), Recv: pick(r, recvs), TimeoutRel: short}},
+						Step{Op: "drain"},
+						Step{Op: "req", Req: &ReqSpec{Kind: "CompletePromise", Id: id, State: pick(r, []string{"RESOLVED", "REJECTED"}), Data: g.val()}})
+				}
+				g.nReq += 3
+			}
+			g.queue = append(g.queue, Step{Op: "drain"}, Step{Op: "settle", Rounds: 1 + r.Intn(2), Inner: pick(r, []int64{1, 1, 2}), K: 1})
+			s.Probes["dispatch_batch_gadget"]++
+			st := g.queue[0]
+			g.queue = g.queue[1:]
+			return st
+		}})
+	}
+	// two registrations whose derived task ids coincide ("__resume:" + root + ":" + promise and
+	// "__notify:" + promise + ":" + id are ambiguous when ids contain the separator): the second
+	// conversion meets the task the first one left behind
+	if g.P.Collide && g.nCollide < 1 && g.nReq+8 < g.P.MaxReqs {
+		cs = append(cs, cand{2, func() Step {
+			g.nCollide++
+			long := int64(10_000_000)
+			x1, x2 := "b:c", "c"
+			reg1 := &ReqSpec{Kind: "CreateCallback", Id: "cb", PromiseId: x1, RootId: "a", Recv: pick(r, recvs), TimeoutRel: long}
+			reg2 := &ReqSpec{Kind: "CreateCallback", Id: "cb", PromiseId: x2, RootId: "a:b", Recv: pick(r, recvs), TimeoutRel: long}
+			if r.Intn(2) == 0 {
+				x1, x2 = "a", "a:b"
+				reg1 = &ReqSpec{Kind: "CreateSubscription", Id: "b:c", PromiseId: x1, Recv: pick(r, recvs), TimeoutRel: long}
+				reg2 = &ReqSpec{Kind: "CreateSubscription", Id: "c", PromiseId: x2, Recv: pick(r, recvs), TimeoutRel: long}
+			}
+			if r.Intn(2) == 0 {
+				x1, x2 = x2, x1
+				reg1, reg2 = reg2, reg1
+			}
+			g.queue = append(g.queue,
+				Step{Op: "req", Req: &ReqSpec{Kind: "CreatePromise", Id: x1, Data: g.val(), TimeoutRel: long}},
+				Step{Op: "req", Req: &ReqSpec{Kind: "CreatePromise", Id: x2, Data: g.val(), TimeoutRel: pick(r, []int64{long, 3000})}},
+				Step{Op: "drain"},
+				Step{Op: "req", Req: reg1}, Step{Op: "drain"},
+				Step{Op: "req", Req: &ReqSpec{Kind: "CompletePromise", Id: x1, State: "RESOLVED", Data: g.val()}}, Step{Op: "drain"},
+				Step{Op: "req", Req: reg2}, Step{Op: "drain"})
+			if r.Intn(3) != 0 {
+				g.queue = append(g.queue, Step{Op: "req", Req: &ReqSpec{Kind: "CompletePromise", Id: x2, State: "REJECTED", Data: g.val()}}, Step{Op: "drain"})
+			}
+			g.nReq += 6
+			for i := range g.queue {
+				if g.queue[i].Req != nil {
+					g.decorate(g.queue[i].Req)
+				}
+			}
+			s.Probes["derived_id_collision_gadget"]++
+			st := g.queue[0]
+			g.queue = g.queue[1:]
+			return st
+		}})
 	}
 	for _, sub := range []string{"store", "router", "sender"} {
 		sub := sub
